@@ -45,6 +45,14 @@ class FakeFS:
         self.files[p] = contents.encode("utf-8")
         return True
 
+    def ls(self, p):
+        self.log.append(("ls", p))
+        pre = p.rstrip("/") + "/"
+        out = [k for k in self.files if k == p or k.startswith(pre)]
+        if not out:
+            raise Exception("java.io.FileNotFoundException: " + p)
+        return sorted(out)
+
     def rm(self, p, recurse=False):
         self.log.append(("rm", p))
         for k in [k for k in self.files if k == p or (recurse and k.startswith(p.rstrip("/") + "/"))]:
